@@ -18,6 +18,7 @@ import (
 	"context"
 	"errors"
 	"fmt"
+	"slices"
 
 	"deps.dev/util/resolve/version"
 )
@@ -147,6 +148,7 @@ func (lc *LocalClient) MatchingVersions(ctx context.Context, vk VersionKey) ([]V
 	if !ok {
 		return nil, fmt.Errorf("version: %v: %w", vk, ErrNotFound)
 	}
-	ms := MatchRequirement(vk, vs)
+	// MatchRequirement may reorder its argument: hand it a copy, not the client's own list.
+	ms := MatchRequirement(vk, slices.Clone(vs))
 	return ms, nil
 }
